@@ -2,6 +2,7 @@ import SfVerif.Lemmas.Hdr
 import SfVerif.Model.Ctx
 import SfVerif.Lemmas.Codes
 import SfVerif.Lemmas.Ctx5
+import SfVerif.Lemmas.GenMarkers
 /-! C08 — arbitrary input bytes never yield a wrong value, a crash or a stray string. -/
 namespace SfVerif.Props.C08
 open SfVerif SfVerif.Gen
@@ -117,5 +118,9 @@ example : Spec.run #[0x92, 1, 0xc1] 0 [.root, .atIndex (.node ⟨0, []⟩) 0, .a
   simp [Spec.run, Spec.answer, Spec.valueAt, Spec.getAtIndex, Spec.hdrAt, specPath, specChild, eagerFuel, skip, skipN,
     readHdr, hdrOfMarker, hdrFix, hdrTagged, arrHdr, mkNode, Ctx.encodeNode, ROp.nextRoots]
   decide
+
+/-- **tie by translation** (shared with C01): the model's header reader is the regenerated dispatch -/
+theorem C08_header_reader_is_the_source_text (b : Bytes) (p m : Nat) : hdrOfMarkerGen b p m = hdrOfMarker b p m :=
+  gen_hdrOfMarker_eq b p m
 
 end SfVerif.Props.C08
